@@ -4,8 +4,8 @@ from common import *
 import decl, gen, pktcases, pktprops
 
 PID = 'C19'
-TARGETS = ['Properties/C19.vo', 'Bridge/EqBridge.vo']
-KERNELS = ['G10_eq']
+TARGETS = ['Properties/C19.vo', 'Bridge/EqBridge.vo', 'Bridge/InitBridge.vo']
+KERNELS = ['G10_eq', 'G15_init', 'G15b_init_structural']
 PROP_FILE = 'Properties/C19.v'
 
 
@@ -15,6 +15,8 @@ def expected(table, c, kw, depth=0):
     for i, fd in enumerate(table[c]['fields']):
         b = fd['body']
         name = f"f{i}"
+        if fd.get('move') or table[c].get('align') is not None:
+            fs.append([f"_shift_to_f{i}", {"unset": True}])
         if b[0] == 'em':
             fs.append([name, {"unset": True}])
             continue
@@ -115,6 +117,10 @@ def run(tier, seed, rng):
             subsets = [()] + [(i,) for i in names[:6]]
             if v is not None and len(names) <= 6:
                 subsets = [s for k in range(len(names) + 1) for s in itertools.combinations(names, k)]
+            # a keyword may also carry None (or another falsy value): it still overrides the field it names
+            for i in names[:6]:
+                for falsy in (None, 0, b'', []):
+                    G.add_default(c, {i: falsy}, tag='falsy')
             for sub in subsets:
                 kw = {i: v[2][i] for i in sub if v is not None and i in v[2]}
                 G.add_default(c, kw)
@@ -124,8 +130,18 @@ def run(tier, seed, rng):
         groups.append(G)
     records, disagreements = pktcases.run_groups(groups, 'c19')
     failures = []
-    dist = dict(constructed=0, with_keywords=0, pack_compared=0, nested_prototypes=0)
-    recs = [r for r in records if r['kind'] in ('default', 'pack')]
+    falsy_checked = 0
+    for r in records:
+        if r['kind'] == 'default' and r.get('tag') == 'falsy':
+            table = pktprops.table_of(groups, r['group'])
+            want = expected(table, r['c'], r['value'][2])
+            falsy_checked += 1
+            if r['outcome'].get('ok') != want and 'exc' not in r['outcome']:
+                failures.append(dict(kind='oracle', sig='defaults-falsy-keyword', what='a keyword argument with a falsy value (None, 0, b"", []) did not override the field it names',
+                                     classes=pktprops.class_source(groups, r['group']), cls=decl.cname(r['c']),
+                                     keywords=decl.py_value(r['value']), observed=r['outcome'], required=want))
+    dist = dict(constructed=0, with_keywords=0, pack_compared=0, falsy_keywords=falsy_checked)
+    recs = [r for r in records if r['kind'] in ('default', 'pack') and r.get('tag') != 'falsy']
     it = iter(recs)
     for (gid, c, kw) in meta:
         d, p1, p2 = next(it), next(it), next(it)
